@@ -57,6 +57,15 @@ def run_case(cs, ctx):
     outdir = ge.fresh_outdir(ctx.workdir, 'c08')
     argv = ge.to_argv(v, outdir, rng)
     case = {'cs': cs, 'vector': v, 'argv': [a if a != outdir else '<outdir>' for a in argv]}
+    rerun = (not coverage_run) and cs % 10 == 3
+    if rerun:
+        # the directory already exists and already holds files of an earlier run
+        first = ge.run_generator(argv, cs ^ 0x5555)
+        ctx.cov('second_run_into_existing_directory')
+    elif cs % 10 == 4:
+        import os as _os
+        _os.makedirs(outdir)
+        ctx.cov('existing_empty_directory')
     res = ge.run_generator(argv, cs)
     ctx.cnt('generator_runs')
     if res['exit'] is not None or res['exc'] is not None:
@@ -73,6 +82,7 @@ def run_case(cs, ctx):
         ctx.finding(en.F('C08', 'file_names', 'output directory holds %s, expected %s' % (names, want)), case)
         return
     allowed = {os.path.join(outdir, n) for n in want} | {outdir, os.path.dirname(outdir)}
+    case['second_run_into_existing_directory'] = rerun
     bad = [e for e in res['fs'] if e[0] != 'open_r' and e[1] not in allowed]
     ctx.cnt('fs_events_audited', len(res['fs']))
     if bad:
@@ -130,7 +140,8 @@ def floors(m, tier):
     if c.get('files_checked', 0) < need:
         out.append('only %d files checked' % c.get('files_checked', 0))
     for k in ('type_ha', 'type_sm', 'type_hr', 'type_spa', 't1_zero', 't1_one', 't2_zero_or_one_two_sided',
-              'more_lecturers_than_projects', 'zero_capacity_lecturers', 'one_sided'):
+              'more_lecturers_than_projects', 'zero_capacity_lecturers', 'one_sided', 'second_run_into_existing_directory',
+              'existing_empty_directory'):
         if cov.get(k, 0) < 15:
             out.append('class %s seen %d times' % (k, cov.get(k, 0)))
     if c.get('length_coverage_runs', 0) < need // 40:
